@@ -108,9 +108,9 @@ func c31(c *Ctx) {
 	c.ConfineStores("R4-worker", c31D+"Runtime.workers", true, c31D+"NewRuntime")
 	c.ConfineStores("R4-worker", c31D+"orderedPlanQueue.shards", true, c31D+"newOrderedPlanQueue")
 	rb := c.Fn(c31D + "runBoundedRuntime")
-	c.Guard("R4-worker", rb, AnyRet{}, "count == 0 || concurrency <= 1 || count == 1 || after: sync.WaitGroup.Wait(workers)")
-	c.FollowedBy("R4-worker", rb, CallTo{safeGo}, CallTo{"sync.WaitGroup.Wait(workers)"})
-	c.Guard("R4-worker", rb, CallTo{safeGo}, "after: sync.WaitGroup.Add(workers, *)")
+	c.Guard("R4-worker", rb, AnyRet{}, "count == 0 || concurrency <= 1 || count == 1 || after: sync.WaitGroup.Wait(*)")
+	c.FollowedBy("R4-worker", rb, CallTo{safeGo}, CallTo{"sync.WaitGroup.Wait(*)"})
+	c.Guard("R4-worker", rb, CallTo{safeGo}, "after: sync.WaitGroup.Add(*, *)")
 	c.FollowedBy("R4-worker", c.Fn(c31D+"runBoundedRuntime$2"), CallTo{"dyn:worker"}, CallTo{"sync.WaitGroup.Done(workers)"})
 	c.FollowedBy("R4-worker", c.Fn(c31D+"Runtime.Start$1"), CallTo{c31D + "Runtime.runWorker"}, CallTo{"sync.WaitGroup.Done(workers)"})
 
@@ -155,7 +155,7 @@ func c31(c *Ctx) {
 	c.ConfineCalls("R6-offline", c31D+"Runtime.notifyOfflineSafely", 1, c31D+"Runtime.processPlan")
 	c.ConfineCalls("R6-offline", c31D+"appendOfflineUIDs", 1, c31D+"Runtime.processPlan")
 	c31OfflineArgsAligned(c, "R6-offline", pp)
-	c31EveryIterationDoes(c, "R6-offline", pp, "*.Routes", StoreTo{Addr: "grouped[*]"},
+	c31EveryIterationDoes(c, "R6-offline", pp, "*.Routes", StoreTo{Addr: "*[*.OwnerNodeID]"},
 		"*.OwnerNodeID == 0 || "+c31D+"suppressSenderRoute(plan, *) == true")
 	c.CallShape("R6-offline", pp, c31D+"Runtime.notifyOfflineSafely", c31D+"Runtime.notifyOfflineSafely(r, ctx, plan, *)")
 }
